@@ -466,9 +466,11 @@ def check_cases(R, sides, cases, cfg, cid, sigfun=None, kindfun=None):
         freqs = [c.req for c, _, _ in failing]
         off = [fl for fl in FLAGS if not cfg[fl]]
         # (a) one repair alone; (b) repairs accumulated in FLAGS order (attributed to the last one needed)
-        trials = [({fl}, fl) for fl in off] + [(set(off[:k + 1]), off[k]) for k in range(1, len(off))]
-        if not off:
-            trials = []
+        # (0) the model in the expected configuration already satisfies the property on this input: the
+        #     implementation deviates from the model, no recorded defect explains it;
+        # (a) one repair alone; (b) repairs accumulated in FLAGS order (attributed to the last one needed)
+        trials = [(set(), 'implementation-deviates')]
+        trials += [({fl}, fl) for fl in off] + [(set(off[:k + 1]), off[k]) for k in range(1, len(off))]
         trials.append((set(FLAGS), 'sound-only'))
         for on, label in trials:
             todo = [j for j in range(len(failing)) if explained[j] is None]
